@@ -183,7 +183,7 @@ def main():
             if r is None or 'ok' not in r:
                 V.violation('raises:' + key, f'estimate_importances_minibatches failed: {PC.failure_text(r)}', rep)
                 continue
-            trace = SC.to_trace(r['ok']['events'], final=r['ok']['final'] or [])
+            trace = SC.to_trace(r['ok']['events'], final=r['ok']['final'] or [], kinds=kinds)
             res = SC.validate_stream(wd, trace, MB=MB, SS=SS, NCols=len(job['columns']), NLines=nl, scoring=(heur != 'Constant'), name=f't{n}')
             V.add_tlc(res, f'TraceStreaming/{n}')
             if not res.ok:
